@@ -304,6 +304,9 @@ func (b *Balloon) AddBulk(eventBulkDigest []hashing.Digest) ([]*Snapshot, []*sto
 // against a certain balloon version.
 // It asks the hyper tree for this proof and returns the proof if there is no error.
 func (b *Balloon) QueryDigestMembershipConsistency(keyDigest hashing.Digest, version uint64) (*MembershipProof, error) {
+	if len(keyDigest) != int(b.hasherF().Len())/8 {
+		return nil, fmt.Errorf("invalid digest: its length is %d bytes, this log works with digests of %d bytes", len(keyDigest), b.hasherF().Len()/8)
+	}
 	b.RLock()
 	defer b.RUnlock()
 	var proof MembershipProof
@@ -363,6 +366,9 @@ func (b *Balloon) QueryMembershipConsistency(event []byte, version uint64) (*Mem
 // against the latest balloon version.
 // It asks the hyper tree for this proof and returns the proof if there is no error.
 func (b *Balloon) QueryDigestMembership(keyDigest hashing.Digest) (*MembershipProof, error) {
+	if len(keyDigest) != int(b.hasherF().Len())/8 {
+		return nil, fmt.Errorf("invalid digest: its length is %d bytes, this log works with digests of %d bytes", len(keyDigest), b.hasherF().Len()/8)
+	}
 	b.RLock()
 	defer b.RUnlock()
 	var proof MembershipProof
